@@ -26,6 +26,7 @@ INITIAL = [
     # non-ASCII script names in reply lines; this store is read by a client created with debug=True (its trace prints every chunk)
     ({"a": BODY1.encode(), "\u00e9t\u00e9 \u20ac": BODY2.encode()}, "\u00e9t\u00e9 \u20ac"),
 ]
+INITIAL.append(({"a": b"", "c": b"\r\n"}, None))  # an empty script is a valid script
 DEBUG_STORES = {4}
 CUTS = [1, 7, "cr1", "crl"]  # thorough adds 2 and -1 (see run)
 
@@ -180,6 +181,11 @@ def run_history(init_i, version, hist, prefix, seg_choice, shadow=False):
                 bad = ("result", "emulated rename gave %s" % o.brief())
             elif o.kind == "ret" and o.value is True and not (ev[1] not in srv.store and ev[2] in srv.store):
                 bad = ("result", "emulated rename returned True but the store is %r" % sorted(srv.store))
+            elif o.kind == "ret" and o.value is False and ev[1] in pre_store and ev[2] not in pre_store and ev[1] != ev[2] and \
+                    all(st == b"OK" for st in srv.status_log[len(srv.status_log) - (len(srv.log) - nlog0):]):
+                # the rename was possible and the server refused nothing: a reported failure does not describe the server
+                bad = ("result", "emulated rename of %r reported failure although every command it sent (%r) was answered OK" % (
+                    ev[1], [v for v, _a in srv.log[nlog0:]]))
             for name, content in pre_store.items():
                 if name != ev[1] and (name not in srv.store or srv.store[name] != content):
                     bad = ("store", "emulated rename modified bystander %r" % name)
@@ -284,7 +290,8 @@ def run(tier, seed):
     for init_i in range(len(INITIAL)):
         for version in (True, False):
             for first in range(len(EVENTS)):
-                tasks.append((init_i, version, depth, bound, first))
+                # (the two special-purpose stores - non-ASCII names under a debug client, empty bodies - are explored one event less deep)
+                tasks.append((init_i, version, depth if init_i < 4 else depth - 1, bound, first))
     res = pool.run_tasks("checks.c15:task", tasks)
     n = sum(r["n"] for r in res)
     viols = []
